@@ -383,7 +383,12 @@ pub fn promote_types_not_equal(ty1: &Type, ty2: &Type) -> Type {
 // promotion suitable for some binary operations, eg +, -, *
 pub fn promote_types(ty1: &Type, ty2: &Type) -> Type {
     if equal_up_to_constness(ty1, ty2) {
-        return ty1.clone();
+        // The common type is const only if both types are.
+        return if ty1.is_const() {
+            ty2.clone()
+        } else {
+            ty1.clone()
+        };
     }
     let typ = promote_type_width(ty1, ty2);
     if typ != Type::Void {
